@@ -240,7 +240,7 @@ pub fn strategy(thorough: bool) -> BoxedStrategy<Case> {
             if let Some(d) = disc {
                 steps.push(d);
             }
-            let io = IoCfg { read_chunks: vec![], write_chunks: if need > 100_000 { vec![] } else { write_chunks }, pend_first: false };
+            let io = IoCfg { read_chunks: vec![], write_chunks: if need > 100_000 { vec![] } else { write_chunks }, pend_first: false, read_cuts: vec![] };
             let connect = ConnectSpec {
                 props: ConnackProps { server_keepalive, assigned_id, ..ConnackProps::default() },
                 io: io.clone(),
